@@ -39,12 +39,21 @@ class BasePickerModel(ABC):
         # if depth is too large
         if isinstance(depth, (int, np.integer)):
             depth = (depth, depth, depth)
+        _depth = tuple(min(s, d) for s, d in zip(image.shape, depth))
+        # chunks must not be smaller than the overlap depth
+        image = image.rechunk(
+            tuple(
+                c if min(c) >= d else max(int(d), 1)
+                for c, d in zip(image.chunks, _depth)
+            )
+        )
         task: da.Array = image.map_overlap(
             self._pick_in_chunk_wrapped,
             **params,
             **kwargs,
+            overlap_depth=[int(d) for d in _depth],
             # dask parameters
-            depth=[min(s, d) for s, d in zip(image.shape, depth)],
+            depth=[int(d) for d in _depth],
             trim=False,
             boundary=boundary,
             dtype=object,
@@ -52,20 +61,30 @@ class BasePickerModel(ABC):
         )
         boxes: Sequence[MoleculesBox] = task.compute().ravel()
         mole = Molecules.concat([box.to_molecules() for box in boxes])
-        mole._pos = (mole._pos - depth) * scale
+        mole._pos = (mole._pos - _depth) * scale
         return mole
 
     def _pick_in_chunk_wrapped(
         self,
         image: NDArray[np.float32],
         block_info: dict,
+        overlap_depth: Sequence[int] = (0, 0, 0),
         **kwargs,
     ) -> NDArray[np.object_]:
         pos, quats, features = self.pick_in_chunk(image, **kwargs)
+        pos = np.asarray(pos, dtype=np.float32).reshape(-1, 3)
+        # NOTE: locations are those of the chunks before overlapping.
         locs: list[tuple[int, int]] = block_info[None]["array-location"]
-        for i, (start, _) in enumerate(locs):
+        # Only the molecules in the core region (without the overlap) are accepted.
+        # Otherwise molecules in the overlap will be picked twice.
+        is_core = np.ones(pos.shape[0], dtype=np.bool_)
+        for i, ((start, stop), d) in enumerate(zip(locs, overlap_depth)):
+            core_size = stop - start
+            is_core &= (d - 0.5 <= pos[:, i]) & (pos[:, i] < d + core_size - 0.5)
             pos[:, i] += start
-
+        pos = pos[is_core]
+        quats = np.asarray(quats)[is_core]
+        features = {k: np.asarray(v)[is_core] for k, v in features.items()}
         return np.array([[[MoleculesBox(pos, quats, features)]]], dtype=object)
 
     @abstractmethod
@@ -127,7 +146,8 @@ class BaseTemplateMatcher(BasePickerModel):
         mask = self._tilt_model.create_mask(shape=template.shape)
         out = pool.compute()  # rotated templates
         templates = [o * mask for o in out]
-        depth = tuple(np.ceil(np.array(templates[0].shape) / 2).astype(np.uint16))
+        # two more pixels so that the landscape extends beyond the core region
+        depth = tuple((np.ceil(np.array(templates[0].shape) / 2) + 2).astype(np.uint16))
         return {"templates": templates}, depth
 
     def _index_to_quaternions(self, argmax_indices):
